@@ -128,11 +128,9 @@ theorem handleStartTag_tl {d d' : Dispatcher} (script : ElemScript) (ord : Nat) 
 
 /-! ### the controller callbacks keep the domain -/
 
-/-- the states the class speaks about: no text handler registered; a fault recorded by `handle_end_tag`
-is a panic -/
+/-- the states the class speaks about: no text handler registered -/
 structure Dom (s : St) : Prop where
   tf : TF s.disp
-  fp : ∀ e, s.fault = some e → ∃ m, e = Err.panic m
 
 theorem runClosures_fault {τ ω : Type} (scripts : HId → Scripts ω) (kind : Nat) (who : HId → Who)
     (see : τ → Seen) (apply : τ → List ω → τ) (src : Range) (hs : List HId) (s : St) (u : τ) :
@@ -184,8 +182,8 @@ theorem runEndClosures_fault (cfg : Cfg) (hs : List HId) (s : St) (out : List By
         (out ++ ((cyc (cfg.endScripts h) (invGet s.inv (kEnd, h))).1.map fun c => encUtf8 c.2 c.1).filter fun b => !b.isEmpty)
       simpa using this
 
-theorem Dom.of_eq {s s' : St} (h : Dom s) (hd : tl s'.disp = tl s.disp) (hf : s'.fault = s.fault) : Dom s' :=
-  ⟨h.tf.of_tl hd, by rw [hf]; exact h.fp⟩
+theorem Dom.of_eq {s s' : St} (h : Dom s) (hd : tl s'.disp = tl s.disp) : Dom s' :=
+  ⟨h.tf.of_tl hd⟩
 
 theorem afterVm_dom {s : St} (h : Dom s) (n : Nat) (vm' : SelVM.Vm) (infos : List SelVM.MatchInfo) :
     Dom (s.afterVm n vm' infos).1 := by
@@ -193,19 +191,23 @@ theorem afterVm_dom {s : St} (h : Dom s) (n : Nat) (vm' : SelVM.Vm) (infos : Lis
   split
   · exact h
   · rename_i d hd
-    exact h.of_eq (startMatchingInfos_tl infos h.tf hd) rfl
+    exact h.of_eq (startMatchingInfos_tl infos h.tf hd)
+
+theorem startTagCore_dom {s : St} (h : Dom s) (name : LocalName) (ns : Model.Ns) : Dom (startTagCore s name ns).1 := by
+  unfold startTagCore
+  split
+  · exact h
+  · split
+    · exact h
+    · simp only
+      split <;> exact afterVm_dom h _ _ _
+    · exact h.of_eq rfl
 
 theorem startTag_dom {s : St} (h : Dom s) (name : LocalName) (ns : Model.Ns) : Dom (startTag s name ns).1 := by
   unfold startTag
   split
   · exact h
-  · split
-    · exact h
-    · split
-      · exact h
-      · simp only
-        split <;> exact afterVm_dom h _ _ _
-      · exact h.of_eq rfl rfl
+  · exact startTagCore_dom (s := { s with ord := s.ord + 1 }) ⟨h.tf⟩ name ns
 
 theorem auxInfo_dom {s : St} (h : Dom s) (info : AuxInfo) : Dom (auxInfo s info).1 := by
   unfold auxInfo
@@ -222,14 +224,14 @@ theorem endTag_dom {s : St} (h : Dom s) (name : LocalName) : Dom (endTag s name)
   split
   · exact h
   · split
-    · exact ⟨h.tf, fun e he => by simp only [Option.some.injEq] at he; subst he; exact ⟨_, rfl⟩⟩
+    · exact ⟨h.tf⟩
     · split
       · simp only
         split
-        · exact ⟨h.tf, fun e he => by simp only [Option.some.injEq] at he; subst he; exact ⟨_, rfl⟩⟩
+        · exact ⟨h.tf⟩
         · rename_i d hd
-          exact h.of_eq (stopMatchingPopped_tl _ _ h.tf hd) rfl
-      · exact ⟨h.tf, fun e he => by simp only [Option.some.injEq] at he; subst he; exact ⟨_, rfl⟩⟩
+          exact h.of_eq (stopMatchingPopped_tl _ _ h.tf hd)
+      · exact ⟨h.tf⟩
 
 /-- `handle_token` touches neither the text handlers nor the fault -/
 theorem token_frame (cfg : Cfg) (s : St) (t : Model.Token) :
@@ -286,7 +288,7 @@ theorem token_frame (cfg : Cfg) (s : St) (t : Model.Token) :
 
 theorem token_dom {cfg : Cfg} {s : St} (t : Model.Token) : Dom (token cfg s t).1 ↔ Dom s := by
   obtain ⟨a, b⟩ := token_frame cfg s t
-  exact ⟨fun h => h.of_eq a.symm b.symm, fun h => h.of_eq a b⟩
+  exact ⟨fun h => h.of_eq a.symm, fun h => h.of_eq a⟩
 
 theorem handleEnd_dom {cfg : Cfg} {s : St} (h : Dom s) : Dom (handleEnd cfg s).1 := by
   unfold handleEnd
@@ -297,8 +299,7 @@ theorem handleEnd_dom {cfg : Cfg} {s : St} (h : Dom s) : Dom (handleEnd cfg s).1
     · rename_i en hs _
       simp only
       obtain ⟨a, _⟩ := runEndClosures_frame cfg hs { s with disp := { s.disp with end_ := en } } []
-      have b := runEndClosures_fault cfg hs { s with disp := { s.disp with end_ := en } } []
-      exact h.of_eq (by rw [a]; rfl) (by rw [b])
+      exact h.of_eq (by rw [a]; rfl)
 
 /-! ### `should_emit_content()` -/
 
@@ -321,18 +322,23 @@ theorem afterVm_removed (s : St) (n : Nat) (vm' : SelVM.Vm) (infos : List SelVM.
   · rename_i d hd
     exact startMatchingInfos_removed infos hd
 
+theorem startTagCore_removed (s : St) (name : LocalName) (ns : Model.Ns) :
+    (startTagCore s name ns).1.disp.removedContent = s.disp.removedContent := by
+  unfold startTagCore
+  split
+  · rfl
+  · split
+    · rfl
+    · simp only
+      split <;> exact afterVm_removed _ _ _ _
+    · rfl
+
 theorem startTag_removed (s : St) (name : LocalName) (ns : Model.Ns) :
     (startTag s name ns).1.disp.removedContent = s.disp.removedContent := by
   unfold startTag
   split
   · rfl
-  · split
-    · rfl
-    · split
-      · rfl
-      · simp only
-        split <;> exact afterVm_removed _ _ _ _
-      · rfl
+  · exact startTagCore_removed { s with ord := s.ord + 1 } name ns
 
 theorem auxInfo_removed (s : St) (info : AuxInfo) :
     (auxInfo s info).1.disp.removedContent = s.disp.removedContent := by
@@ -393,7 +399,7 @@ theorem freshText_bytes (b : Bytes) (l : Bool) : ({ text := b, lastInTextNode :=
 theorem token_text {cfg : Cfg} {s : St} (h : TF s.disp) (b : Bytes) (tt : TextType) (l : Bool) (src : Range) :
     token cfg s (.text b tt l src) =
       match s.fault with
-      | some e => (s, { chunks := [], err := some e })
+      | some m => (s, { chunks := [], err := some (.panic m) })
       | none => (s, { chunks := [b] }) := by
   unfold token
   split
@@ -546,10 +552,9 @@ theorem pair_congr {cfg : Cfg} {β : Type} (x y : St × β) (hx : Valid cfg x.1)
 /-- the domain of the instance: the underlying state is in `Dom` -/
 def FullE (cfg : Cfg) (a b : FullSt cfg) : Prop := a = b ∧ Dom a.1
 
-theorem fullCtl_textDead {cfg : Cfg} {g : FullSt cfg} (h : Dom g.1) {e : Err} (he : g.1.fault = some e) :
+theorem fullCtl_textDead {cfg : Cfg} {g : FullSt cfg} (h : Dom g.1) {m : String} (he : g.1.fault = some m) :
     TextDead (fullCtl cfg) g := by
   intro b tt l src
-  obtain ⟨m, rfl⟩ := h.fp e he
   refine ⟨m, ?_⟩
   show (token cfg g.1 (.text b tt l src)).2.err = _
   rw [token_text h.tf, he]
@@ -648,7 +653,7 @@ theorem addDocs_TF : ∀ (rs : List DocReg) (d : Dispatcher) (base : Nat), TF d 
 theorem init_dom (cfg : Cfg) (h : noText cfg = true) : Dom (FullSt.init cfg).1 := by
   unfold noText at h
   simp only [Bool.and_eq_true, List.all_eq_true] at h
-  refine ⟨?_, fun e he => by cases he⟩
+  refine ⟨?_⟩
   show TF (Dispatcher.fromSettings cfg.selRegs cfg.docRegs)
   unfold Dispatcher.fromSettings
   refine addDocs_TF _ _ _ (foldSel_TF _ _ ⟨rfl, fun _ hl => by cases hl⟩ ?_) ?_
